@@ -334,6 +334,11 @@ class TaskManager(rpu.ClientComponent):
                 tasks = list()
                 for task in self._tasks.values():
 
+                    # only tasks which are bound to this pilot and which are
+                    # not yet final are affected
+                    if task.pilot != pid or task.state in rps.FINAL:
+                        continue
+
                     update = {'uid'             : task.uid,
                               'exception'       : 'RuntimeError("pilot died")',
                               'exception_detail': 'pilot %s is final' % pid,
